@@ -156,19 +156,20 @@ def hist_program(h):
 
 
 def gen_e2e(ctx, nprog, maxops, ntrigger, salt="c18-e2e"):
-    """(history, class): clean histories stay outside every known-defect class; trigger histories aim at one"""
+    """(history, class): clean histories stay outside the OPEN known-defect class (keys with equal printed forms);
+    trigger histories aim at one class each -- the classes that were repaired in /repo stay here as regression
+    inputs and are judged like everything else (only classes listed as open in known_findings.jsonl excuse)"""
     r = vlib.rng(ctx.seed, salt)
     out = []
     for i in range(nprog):
         k = r.randint(1, min(maxops, 30) if r.random() < 0.97 else maxops)
         x = i % 3
         if x == 0:
-            out.append((H.gen_list_history(r, k, geteq="just"), "clean"))
+            out.append((H.gen_list_history(r, k, geteq="any", negative_set=True), "clean"))
         else:
             kind = "dict" if x == 1 else "set"
             kt = r.choice([H.INT, H.STR, H.TUP(H.INT, H.INT), H.STR, H.TUP(H.INT, H.STR)])
-            out.append((H.gen_keyed_history(r, k, kind=kind, kt=kt, geteq="just" if kind == "dict" else None,
-                                            remove=(kind == "set" or kt == H.STR)), "clean"))
+            out.append((H.gen_keyed_history(r, k, kind=kind, kt=kt, geteq="any" if kind == "dict" else None), "clean"))
     for i in range(ntrigger):
         k = r.randint(3, 14)
         x = i % 4
